@@ -65,7 +65,7 @@ def strategy(draw, tier="quick"):
                     self_corr=draw(st.booleans()), n_conc=draw(st.sampled_from([100000, 7, 10, 64])), npairs=draw(st.integers(3, 40)),
                     period=draw(st.sampled_from([None, 2])))
     if what == "nematic":
-        case.update(groups=draw(st.sampled_from(["chains", "residues", "explicit", "explicit"])))
+        case.update(groups=draw(st.sampled_from(["chains", "residues", "explicit", "explicit", "explicit-equal"])))
     if what == "volume-stats":
         case.update(nf=draw(st.integers(2, 6)), temperature=draw(st.sampled_from([250.0, 298.15, 400.0])))
     if what == "drid":
@@ -416,8 +416,9 @@ def run_case(case):
                 arg, groups = "residues", [[a.index for a in r.atoms] for r in top.residues]
             else:
                 groups = []
-                for _ in range(int(rng.integers(1, 6))):
-                    k = int(rng.integers(3, min(n, 30)))
+                k_eq = int(rng.integers(3, min(n, 9)))        # "explicit-equal": every group has the same number of atoms
+                for _ in range(int(rng.integers(1, 6)) + (1 if case["groups"] == "explicit-equal" else 0)):
+                    k = k_eq if case["groups"] == "explicit-equal" else int(rng.integers(3, min(n, 30)))
                     groups.append(sorted(int(i) for i in rng.choice(n, k, replace=False)))
                 arg = groups
             D = md.compute_directors(t, arg)
